@@ -17,12 +17,12 @@ func init() {
 	register(&Profile{
 		Name:     "C15",
 		Property: "C15",
-		Gen:      genC15,
+		Gen:      func(g *Gen) *Plan { return swarm(g, genC15(g), 0.2, 0) },
 		Oracles:  []func(o *Outcome) []Violation{oracleC15, respOracle("C15"), servedOracle("C15"), livenessOracle("C15")},
 		NonTrivial: func(o *Outcome) bool {
 			return o.Hist.Probes["upstream-request-compared"] > 0 && (o.Hist.Probes["conditional-on-fetching-role"]+o.Hist.Probes["range-request"] > 0)
 		},
-		Rule:         "seeded plans: a server with an /api location (drawn subset of: rewrite rules of the documented one- and two-wildcard forms, alone or chained, added request headers, added query parameters, added response headers, proxy timeout) on upstream u1 (optional Accept-Encoding override) and a catch-all location on upstream u2; clients with arbitrary extra headers, bodies on non-GET methods, queries, If-None-Match / If-Modified-Since (matching and not) and Range, reaching the cache in cold, waiter, hit and hit-for-pass roles (the role is produced by the scheduler). Oracle: the request the origin logged equals the client's request transformed by the reference model; conditionals are withheld exactly on the fetching role; the client gets 304 iff its validators match; a 304 / 206 reply is never replayed to another client. non-trivial = an upstream request was compared and a conditional or range request occurred; distinct = distinct history hash",
+		Rule:         "seeded plans: a server with an /api location (drawn subset of: rewrite rules of the documented one- and two-wildcard forms, alone or chained, added request headers, added query parameters, added response headers, proxy timeout) on upstream u1 (optional Accept-Encoding override) and a catch-all location on upstream u2; clients with arbitrary extra headers, bodies on non-GET methods, queries, If-None-Match / If-Modified-Since (matching and not) and Range, reaching the cache in cold, waiter, hit and hit-for-pass roles (the role is produced by the scheduler). Oracle: the request the origin logged equals the client's request transformed by the reference model; conditionals are withheld exactly on the fetching role; the client gets 304 iff its validators match; a 304 / 206 reply is never replayed to another client. in a fifth of the plans a tenth of the clients disconnect at a scheduler-chosen step (fault client-disconnect). non-trivial = an upstream request was compared and a conditional or range request occurred; distinct = distinct history hash",
 		ExpectProbes: []string{"upstream-request-compared", "conditional-on-fetching-role", "conditional-on-hit", "conditional-on-pass", "range-request", "rewrite-applied", "rewrite-rules-chained", "non-2xx-with-validators-on-hit", "query-added", "header-added", "accept-encoding-overridden", "304-for-client", "body-forwarded"},
 	})
 }
